@@ -307,7 +307,7 @@ constexpr long kManyMessages = 8;
 
 inline long count(Ctx& c)
 {
-    return kKindSweeps + kFieldSweeps + kValiditySweeps + kInnerLengthSweeps + kManyMessages + (c.thorough() ? 2000000 : 40000);
+    return kKindSweeps + kFieldSweeps + kValiditySweeps + kInnerLengthSweeps + kManyMessages + (c.thorough() ? 8000000 : 40000);
 }
 
 inline void run(Ctx& c, long idx)
